@@ -58,14 +58,16 @@ cfg("MC_Sess_quick.cfg", ["n1"], [1, 2], 4, 4, 1, "Limit_C04", ["create", "attr"
 cfg("MC_Sess_links_quick.cfg", N2, [1, 2], 14, 15, 1, "Limit_Links", ["create", "attr", "data", "link", "delete"], [], "Script_Links")
 # C20: copies after a scripted prefix (block with internal links), then mutations of either side
 C20P = ["RefusedUnchanged", "DeleteFrame", "CopyComplete", "CopyIndependent"]
-cfg("MC_C20_quick.cfg", N3, [1], 30, 18, 1, "Limit_Copy", ["create", "copy", "attr", "data", "delete", "link"], ["NameExists"], "Script_Copy", props=C20P, copykeep=["FALSE"])
-cfg("MC_C20.cfg", N3, [1], 30, 19, 1, "Limit_Copy", ["create", "copy", "attr", "data", "delete", "link"], ["NameExists"], "Script_Copy", props=C20P, copykeep=["FALSE"])
-cfg("MC_C20_mut.cfg", N3, [1, 2], 30, 20, 1, "Limit_Copy", ["create", "link", "copy", "attr", "data", "delete"], [], "Script_Copied", props=C20P, copykeep=["FALSE"])
-cfg("MC_C20_dupid.cfg", N3, [1], 32, 20, 1, "Limit_CopyDup", ["create", "link", "copy", "attr", "data"], [], "Script_CopyDup", inv=[i for i in INV if i != "EidUnique"], props=C20P, copykeep=["TRUE", "FALSE"])
-cfg("MC_C20_keep.cfg", N3, [1], 30, 18, 1, "Limit_Copy", ["create", "link", "copy", "attr", "data"], ["NameExists"], "Script_Copy", inv=[i for i in INV if i != "EidUnique"], props=C20P, copykeep=["TRUE"])
+cfg("MC_C20_quick.cfg", N3, [1], 32, 20, 1, "Limit_Copy", ["create", "copy", "attr", "data", "delete", "link"], ["NameExists"], "Script_Copy", props=C20P, copykeep=["FALSE"])
+cfg("MC_C20.cfg", N3, [1], 32, 21, 1, "Limit_Copy", ["create", "copy", "attr", "data", "delete", "link"], ["NameExists"], "Script_Copy", props=C20P, copykeep=["FALSE"])
+cfg("MC_C20_mut.cfg", N3, [1, 2], 32, 22, 1, "Limit_Copy", ["create", "link", "copy", "attr", "data", "delete"], [], "Script_Copied", props=C20P, copykeep=["FALSE"])
+cfg("MC_C20_dupid.cfg", N3, [1], 34, 22, 1, "Limit_CopyDup", ["create", "link", "copy", "attr", "data"], [], "Script_CopyDup", inv=[i for i in INV if i != "EidUnique"], props=C20P, copykeep=["TRUE", "FALSE"])
+cfg("MC_C20_keep.cfg", N3, [1], 32, 20, 1, "Limit_Copy", ["create", "link", "copy", "attr", "data"], ["NameExists"], "Script_Copy", inv=[i for i in INV if i != "EidUnique"], props=C20P, copykeep=["TRUE"])
 # C02 / C05: link, unlink, link again (a link list that became empty in between) after the scripted prefix
 cfg("MC_C02_relink.cfg", N2, [1], 6, 9, 1, "Limit_Small", ["create", "link"], [], "Script_Small")
 cfg("MC_C02_relink4.cfg", N2, [1], 6, 10, 1, "Limit_Small", ["create", "link"], [], "Script_Small")
+# C03: link lists over a source tree with shadowed names
+cfg("MC_C03_shadow.cfg", N2, [1], 8, 10, 1, "Limit_Shadow", ["create", "link"], ["NotMember"], "Script_Shadow")
 # simulation (-simulate): random walks are not cut by the VIEW, so calls are repeated, undone and redone
 cfg("MC_SimLinks.cfg", N2, [1, 2], 14, 32, 1, "Limit_Links", ["create", "link", "attr", "data", "delete"], ["WrongKind", "ForeignBlock", "NotMember"], "Script_Links", inv=[], props=[])
 cfg("MC_SimSmall.cfg", N2, [1, 2], 6, 24, 1, "Limit_Small", ["create", "link", "attr"], ["NotMember"], "Script_Small", inv=[], props=[])
@@ -73,4 +75,7 @@ cfg("MC_SimChurn.cfg", N2, [1], 40, 24, 1, "Limit_C03", ["create", "delete"], ["
 # quick-tier variants: one call after the scripted prefix (the thorough tier and the simulations go deeper)
 cfg("MC_C05_q1.cfg", N2, [1, 2], 14, 15, 1, "Limit_Links", ["create", "link", "attr", "data"], ["WrongKind", "ForeignBlock"], "Script_Links")
 cfg("MC_C19_links_q1.cfg", N2, [1, 2], 14, 15, 2, "Limit_Links", ["create", "attr", "time", "link"], [], "Script_Links")
+# C19 after a refused call (a refusal must not leave the session's switch or clock handling changed): every fault class
+# at the scripted state; the harness applies the setter probe after each refused call
+cfg("MC_C19_fault_q1.cfg", N2, [1], 14, 15, 2, "Limit_Sim", ["create", "createfault", "mtagauto", "link"], ALLF, "Script_Links")
 print("ok")
